@@ -1909,6 +1909,79 @@ async fn a_field_mask_hides_a_value_from_the_filter_as_well_as_the_projection() 
 }
 
 #[tokio::test]
+async fn a_field_mask_hides_a_value_from_the_pattern_as_well_as_the_filter() {
+    // §109 again, for the constraints an index answers: `{stance: "support"}`
+    // is the same probe as FILTER(?a.stance == "support").
+    let nexus = stocked("field_mask_pattern").await;
+    let owner = nexus.system_session();
+    let created = run_as(
+        &owner,
+        r#"MUTATE {
+            CREATE CONCEPT ?alice { TYPE "Person" NAME "Alice" }
+            CREATE CONCEPT ?dark { TYPE "Person" NAME "Dark Mode" }
+            ENSURE PROPOSITION ?p (?alice, "prefers", ?dark)
+            CREATE ASSERTION ?yes {
+                SET FIELDS {proposition: ?p, asserted_by: ?alice,
+                            stance: "support", mode: "stated", confidence: 0.9}
+            }
+            CREATE ASSERTION ?no {
+                SET FIELDS {proposition: ?p, asserted_by: ?dark,
+                            stance: "reject", mode: "stated", confidence: 0.4}
+            }
+        }"#,
+    )
+    .await;
+    assert_eq!(created.status, TopLevelStatus::Succeeded);
+
+    let gov = nexus.governance();
+    let mut sessions = Vec::new();
+    for (name, fields) in [("masked", vec!["confidence"]), ("seeing", vec!["stance"])] {
+        let reader = agent(gov, &format!("kip:principal:{name}")).await;
+        gov.create_grant(
+            GrantDraft {
+                space_id: DEFAULT_SPACE.into(),
+                grantee_principal: reader.clone(),
+                actions: vec!["read".into()],
+                constraints: AuthorityConstraints {
+                    fields: fields.into_iter().map(String::from).collect(),
+                    ..Default::default()
+                },
+                ..Default::default()
+            },
+            SYSTEM_PRINCIPAL,
+        )
+        .await
+        .unwrap();
+        sessions.push(nexus.session(AuthContext::principal(&reader)));
+    }
+    let query = r#"FIND(?a.id) WHERE { ?a ASSERTION {stance: "support"} }"#;
+
+    let masked = run_as(&sessions[0], query).await;
+    assert_eq!(masked.status, TopLevelStatus::Succeeded);
+    assert!(
+        masked
+            .first_result()
+            .unwrap()
+            .as_array()
+            .unwrap()
+            .is_empty(),
+        "which Assertions support is not something this reader may learn"
+    );
+    // Every Assertion is still there for it, without the stance.
+    let all = run_as(&sessions[0], r#"FIND(?a.stance) WHERE { ?a ASSERTION {} }"#).await;
+    assert_eq!(
+        all.first_result().unwrap().as_array().unwrap().clone(),
+        vec![serde_json::json!(null), serde_json::json!(null)]
+    );
+    // A reader whose mask shows the field selects by it as before.
+    let seeing = run_as(&sessions[1], query).await;
+    assert_eq!(
+        seeing.first_result().unwrap().as_array().unwrap().clone(),
+        vec![serde_json::json!("A-1")]
+    );
+}
+
+#[tokio::test]
 async fn a_read_grants_max_results_caps_the_response() {
     let nexus = stocked("max_results").await;
     let owner = nexus.system_session();
